@@ -220,6 +220,30 @@ def judge(prog_name, naborts, box, failure):
   return bad
 
 
+def record_final(box, failure):
+  """the C09 clauses that can be read off the record itself, for whole aborted
+  runs (owned by the C09 check, which runs this sweep too)"""
+  from vf import build
+  rec = box.get('rec')
+  if failure is not None or rec is None:
+    return []
+  bad = []
+  if rec.outcome is None or not rec.end_time_millis or not rec.start_time_millis or \
+      rec.start_time_millis > rec.end_time_millis:
+    bad.append('record handed to a callback is not final (outcome/start/end)')
+  for p in rec.phases:
+    if p.outcome is None or build.result_kind(p.result) == 'UNSET' or p.options is None:
+      bad.append('phase record without outcome/result/options handed to a callback')
+    if not p.start_time_millis or not p.end_time_millis or p.start_time_millis > p.end_time_millis or \
+        (rec.end_time_millis and p.end_time_millis > rec.end_time_millis):
+      bad.append('phase record times not within start <= end <= test end')
+  if not rec.dut_id:
+    bad.append('record dut_id is not set')
+  if rec.metadata.get('test_name') is None or 'config' not in rec.metadata:
+    bad.append('record metadata lacks test name / config snapshot')
+  return sorted(set(bad))
+
+
 def _quiet_threads():
   threading.excepthook = lambda a: None     # leftover threads of abandoned runs unwind noisily
 
@@ -229,13 +253,16 @@ def explore_job(args):
   _quiet_threads()
   prog_name, source, naborts, bound, root, maxruns = args
   from vf import build, explore  # noqa: F401
-  out = dict(n=0, bad=[], kinds={})
+  out = dict(n=0, bad=[], kinds={}, rec_bad=[])
   try:
     for picks, decisions, box, failure in explore.explore(make_run(prog_name, source, naborts), bound,
                                                           max_runs=maxruns, root=root):
       out['n'] += 1
       if failure is not None:
         box = LAST.get('box', {})
+      for b in record_final(box or {}, failure):
+        if sum(1 for x in out['rec_bad'] if x[0] == b) < 2:
+          out['rec_bad'].append((b, dict(program=prog_name, source=source, aborts=naborts, schedule=picks)))
       for b in judge(prog_name, naborts, box or {}, failure):
         out['kinds'][b] = out['kinds'].get(b, 0) + 1
         if sum(1 for x in out['bad'] if x[0] == b) < 2:
@@ -252,7 +279,7 @@ def random_job(args):
   _quiet_threads()
   prog_name, source, naborts, seeds = args
   from vf import build, sched  # noqa: F401
-  out = dict(n=0, bad=[], kinds={})
+  out = dict(n=0, bad=[], kinds={}, rec_bad=[])
   for sd in seeds:
     pol = sched.RandomPolicy(random.Random(sd), 0.25)
     failure = None
@@ -263,6 +290,9 @@ def random_job(args):
       failure = e
       box = LAST.get('box', {})
     out['n'] += 1
+    for b in record_final(box, failure):
+      if sum(1 for x in out['rec_bad'] if x[0] == b) < 2:
+        out['rec_bad'].append((b, dict(program=prog_name, source=source, aborts=naborts, seed=sd)))
     for b in judge(prog_name, naborts, box, failure):
       out['kinds'][b] = out['kinds'].get(b, 0) + 1
       if sum(1 for x in out['bad'] if x[0] == b) < 2:
